@@ -6,6 +6,7 @@ import (
 	"math/rand"
 	"os"
 	"path/filepath"
+	"sort"
 
 	"github.com/fullstorydev/emulators/storage/gcsemu"
 )
@@ -150,6 +151,32 @@ func genC09(out, tier string, rng *rand.Rand) {
 		[]Req{upn("reports/q2", "x"), upn("reports/2023/q1", "y"), {Kind: "get_meta", B: "bkt", N: "reports"}, rdn("reports"), {Kind: "patch", B: "bkt", N: "reports", Patch: &Patch{HasMeta: true, Meta: [][2]string{{"k", "v"}}}, CP: noConds},
 			{Kind: "delete", B: "bkt", N: "reports", CP: noConds}, {Kind: "delete", B: "bkt", N: "reports/2023", CP: noConds}, rdn("reports/q2"), rdn("reports/2023/q1"), {Kind: "list", B: "bkt"},
 			{Kind: "copy", B: "bkt", N: "reports", B2: "bkt", N2: "copy-of-dir"}, {Kind: "compose", B: "bkt", N: "composed", Srcs: []Src{{Name: "reports", Cond: Raw("")}}, Up: &UpMeta{CType: "x/y"}, CP: noConds}, {Kind: "list", B: "bkt"}})
+	// directory levels that hold ONLY directories, some of whose names extend another's by a character that
+	// sorts below '/' (logs, logs-old, logs.bak; v1, v1-rc, v1.1): listed whole, in pages, by prefix and
+	// with a delimiter
+	{
+		names := []string{"logs/2024/a.txt", "logs-old/2023/b.txt", "logs.bak/c.txt", "data/d.txt", "top/v1/x", "top/v1.1/y", "top/v1-rc/z", "top/v1/sub/w"}
+		var prog []Req
+		for i, n := range names {
+			prog = append(prog, upn(n, fmt.Sprint(i)))
+		}
+		sorted := append([]string{}, names...)
+		sort.Strings(sorted)
+		two := "2"
+		one := "1"
+		prog = append(prog, Req{Kind: "list", B: "bkt"}, Req{Kind: "list", B: "bkt", MaxRes: &two})
+		for i := 1; i < len(sorted); i++ {
+			c := sorted[i-1]
+			prog = append(prog, Req{Kind: "list", B: "bkt", MaxRes: &one, Cursor: &c})
+			if i%2 == 0 {
+				prog = append(prog, Req{Kind: "list", B: "bkt", MaxRes: &two, Cursor: &c})
+			}
+		}
+		for _, pd := range [][2]string{{"", "/"}, {"logs", ""}, {"logs", "/"}, {"logs-", ""}, {"top/", "/"}, {"top/v1", ""}, {"top/v1", "/"}, {"top/v1.", ""}, {"top/v1/", "/"}} {
+			prog = append(prog, Req{Kind: "list", B: "bkt", Prefix: pd[0], Delim: pd[1]}, Req{Kind: "list", B: "bkt", Prefix: pd[0], Delim: pd[1], MaxRes: &one})
+		}
+		progs = append(progs, prog)
+	}
 	// names that differ from a written name by .tmp, ~, .bak ... are objects of their own
 	progs = append(progs, siblingPrograms()...)
 	n = len(progs)
